@@ -115,6 +115,7 @@ def run_scenario(ctx, regs, script, raising, headers, label):
     invoc = {}
     state = {'uid': None, 'removed_now': set(), 'added_now': set(), 'start_table': [], 'mut': 0, 'selfrem': 0}
     extra_regs = []
+    keep = []
 
     def add(rid):
         r = allregs[rid]
@@ -158,6 +159,22 @@ def run_scenario(ctx, regs, script, raising, headers, label):
             if raising is not None and raising == rid:
                 raise ValueError('scripted failure in callback %d' % rid)
         cb.__name__ = 'cb%d' % rid
+        # callbacks come in every callable flavour an application may register
+        kind = (rid + len(headers) + len(regs)) % 4
+        if kind == 1:
+            import functools
+            return functools.partial(cb)
+        if kind == 2:
+            class _Obj:
+                def __call__(self, pk):
+                    return cb(pk)
+            return _Obj()
+        if kind == 3:
+            class _Holder:
+                def method(self, pk):
+                    return cb(pk)
+            keep.append(_Holder())
+            return keep[-1].method
         return cb
 
     allregs = list(regs)
